@@ -212,7 +212,8 @@ func c11Bases(p *chordlang.SLR, terms []string, maxTok int, syllable bool) [][]c
 					if k == "SYLLABLE" {
 						return
 					}
-					t.Val = []string{"1", "2", "3", "4"}[nNum%4]
+					// values that read differently in another base or as a float: 010 = 8 in octal, 08 / 09 are no octal numbers
+					t.Val = []string{"1", "10", "8", "4", "9", "16", "2"}[nNum%7]
 					nNum++
 				} else {
 					// a degree head: written in the chosen notation; keep one sentence per head pattern
